@@ -272,8 +272,11 @@ def check_graham(ctx, points, result):
     try:
         P = np.asarray(points)
         A = P.astype(float)
+        # float arrays: |coord| < 2^20 keeps every orientation product exact in float64; int64 arrays compute the
+        # products in int64, exact up to |coord| < 2^30
+        lim = float(2 ** 30) if P.dtype.kind in 'iu' else LIM
         dom = P.ndim == 2 and P.shape[1] == 2 and len(P) >= 3 and bool(np.all(np.isfinite(A))) \
-            and bool(np.all(A == np.round(A))) and bool(np.all(np.abs(A) < LIM))
+            and bool(np.all(A == np.round(A))) and bool(np.all(np.abs(A) < lim))
     except Exception:
         dom = False
     if not dom:
@@ -421,6 +424,18 @@ DIRS = [(1, 0), (0, 1), (1, 1), (1, -1), (2, 1), (1, 2), (2, -1), (1, -2), (3, 1
 def point_set(rng):
     """>= 3 distinct integer points; returns (array, generator class)."""
     r = rng.random()
+    if r < 0.04:
+        # int64 coordinates of ~2^27..2^29 with pairs almost (but not) in line with the lowest-leftmost point:
+        # directions whose slopes differ by less than one double ulp, cross products of +-1
+        a = int(2 ** int(rng.integers(26, 29))) + int(rng.integers(0, 1000))
+        ox, oy = int(rng.integers(-5, 6)), int(rng.integers(-5, 6))
+        base = [(0, 0), (a, a + 1), (2 * a - 1, 2 * a + 1)]
+        if rng.random() < 0.5:
+            base.append((a + 1, a))
+        extra = {(int(u), int(v)) for u, v in rng.integers(1, 2 ** 28, (int(rng.integers(0, 5)), 2))}
+        allp = list(dict.fromkeys(base + sorted(extra)))
+        pts = np.array([[ox + u, oy + v] for u, v in allp], dtype=float)
+        return pts[rng.permutation(len(pts))], 'huge-int64'
     if r < 0.15:                       # fully collinear
         k = int(rng.integers(3, 15))
         t = np.sort(rng.choice(np.arange(0, 20), size=k, replace=False))
@@ -532,7 +547,8 @@ def cases(rng, tier, shard, nshards):
             yield {'kind': 'graham', 'points': np.array(s, dtype=float), 'cls': 'fixed', 'layout': 'C'}
     for i in range(ngraham):
         pts, cls = point_set(rng)
-        yield {'kind': 'graham', 'points': pts, 'cls': cls, 'layout': gen.pick_layout(rng, pts, p_default=0.5)}
+        yield {'kind': 'graham', 'points': pts, 'cls': cls,
+               'layout': 'i64' if cls == 'huge-int64' else gen.pick_layout(rng, pts, p_default=0.5)}
 
 
 # ---------------------------------------------------------------- driver
